@@ -286,4 +286,325 @@ theorem affAdd_onCurve (a d : F) (P Q : F × F) (hP : onCurve a d P = true) (hQ 
   field_simp
   linear_combination key
 
+/-! ## 5./6. where the law is undefined: the exceptional pairs; completeness -/
+
+theorem isSquare_of_mul_sq_eq_one {e u : F} (h : e * (u * u) = 1) : IsSquare e := by
+  have hu : u ≠ 0 := by
+    rintro rfl; simp at h
+  refine ⟨u⁻¹, ?_⟩
+  field_simp
+  linear_combination h
+
+/-- the explicit relation: if both points are on the curve and one of the two denominators
+    vanishes then `Q` is one of the (at most eight) exceptional partners of `P` -/
+theorem exceptional_of_not_defined (a d : F) (P Q : F × F) (hP : onCurve a d P = true)
+    (hQ : onCurve a d Q = true) (hd : affAddDefined d P Q = false) :
+    (d * Q.1 * Q.1 * P.2 * P.2 = 1 ∧ d * P.1 * P.1 * Q.2 * Q.2 = 1) ∨
+    (a * d * P.1 * P.1 * Q.1 * Q.1 = 1 ∧ d * P.2 * P.2 * Q.2 * Q.2 = a) := by
+  obtain ⟨x1, y1⟩ := P
+  obtain ⟨x2, y2⟩ := Q
+  rw [onCurve_iff] at hP hQ
+  rw [affAddDefined_eq_false_iff] at hd
+  simp only at hP hQ hd ⊢
+  have key : (d * x2 * x2 * y1 * y1 - 1) * (a * d * x1 * x1 * x2 * x2 - 1) = 0 := by
+    linear_combination (d * x2 ^ 2 * (d * x1 ^ 2 * y1 ^ 2)) * hQ - (d * x2 ^ 2) * hP
+      + (d * x2 ^ 2 - 1) * hd
+  rcases mul_eq_zero.1 key with h | h
+  · left
+    have hA : d * x2 * x2 * y1 * y1 = 1 := by linear_combination h
+    refine ⟨hA, ?_⟩
+    -- (d x2² y1²)(d x1² y2²) = K² = 1
+    have : (d * x2 * x2 * y1 * y1) * (d * x1 * x1 * y2 * y2) = 1 := by linear_combination hd
+    rw [hA, one_mul] at this; exact this
+  · right
+    have hB : a * d * x1 * x1 * x2 * x2 = 1 := by linear_combination h
+    refine ⟨hB, ?_⟩
+    have : (a * d * x1 * x1 * x2 * x2) * (d * y1 * y1 * y2 * y2) = a := by
+      linear_combination a * hd
+    rw [hB, one_mul] at this; exact this
+
+/-- converse (no curve equation needed; `a ≠ 0` for the second family) -/
+theorem not_defined_of_exceptional (a d : F) (ha : a ≠ 0) (P Q : F × F)
+    (h : (d * Q.1 * Q.1 * P.2 * P.2 = 1 ∧ d * P.1 * P.1 * Q.2 * Q.2 = 1) ∨
+      (a * d * P.1 * P.1 * Q.1 * Q.1 = 1 ∧ d * P.2 * P.2 * Q.2 * Q.2 = a)) :
+    affAddDefined d P Q = false := by
+  rw [affAddDefined_eq_false_iff]
+  rcases h with ⟨h1, h2⟩ | ⟨h1, h2⟩
+  · linear_combination (d * P.1 * P.1 * Q.2 * Q.2) * h1 + h2
+  · apply mul_left_cancel₀ ha
+    linear_combination (d * P.2 * P.2 * Q.2 * Q.2) * h1 + h2
+
+theorem isSquare_of_not_defined (a d : F) (P Q : F × F) (hP : onCurve a d P = true)
+    (hQ : onCurve a d Q = true) (hd : affAddDefined d P Q = false) :
+    IsSquare d ∨ IsSquare (a * d) := by
+  rcases exceptional_of_not_defined a d P Q hP hQ hd with ⟨h, _⟩ | ⟨h, _⟩
+  · left
+    exact isSquare_of_mul_sq_eq_one (u := Q.1 * P.2) (by linear_combination h)
+  · right
+    exact isSquare_of_mul_sq_eq_one (u := P.1 * Q.1) (by linear_combination h)
+
+/-- general completeness: neither `d` nor `a d` is a square -/
+theorem complete_general (a d : F) (hd : ¬ IsSquare d) (had : ¬ IsSquare (a * d)) (P Q : F × F)
+    (hP : onCurve a d P = true) (hQ : onCurve a d Q = true) : affAddDefined d P Q = true := by
+  by_contra h
+  rw [Bool.not_eq_true] at h
+  rcases isSquare_of_not_defined a d P Q hP hQ h with h | h
+  · exact hd h
+  · exact had h
+
+/-- Bernstein–Lange completeness: `a` a non-zero square, `d` a non-square -/
+theorem complete (a d α : F) (ha : a = α * α) (hα : α ≠ 0) (hd : ¬ IsSquare d) (P Q : F × F)
+    (hP : onCurve a d P = true) (hQ : onCurve a d Q = true) : affAddDefined d P Q = true := by
+  apply complete_general a d hd _ P Q hP hQ
+  rintro ⟨r, hr⟩
+  apply hd
+  refine ⟨r * α⁻¹, ?_⟩
+  subst ha
+  field_simp
+  linear_combination hr
+
+/-! ## 7. `is_zero` and equality -/
+
+theorem zero_eq_mk : (Ext.zero : Ext F) = mk (0, 1) 1 := by simp [Ext.zero, mk]
+
+theorem zero_correct : wellFormed (Ext.zero : Ext F) = true ∧ toAff (Ext.zero : Ext F) = some (0, 1) := by
+  rw [zero_eq_mk]; exact denotes_mk _ one_ne_zero
+
+theorem isZero_iff (p : Ext F) :
+    p.isZero = true ↔ p.x = 0 ∧ p.y = p.z ∧ p.y ≠ 0 ∧ p.t = 0 := by
+  simp [Ext.isZero, and_assoc]
+
+theorem isZero_mk (P : F × F) {z : F} (hz : z ≠ 0) : (mk P z).isZero = true ↔ P = (0, 1) := by
+  obtain ⟨x, y⟩ := P
+  rw [isZero_iff]
+  simp only [mk, Prod.mk.injEq]
+  constructor
+  · rintro ⟨hx, hy, _, _⟩
+    exact ⟨(mul_eq_zero.1 hx).resolve_right hz, mul_right_cancel₀ hz (by rw [hy, one_mul])⟩
+  · rintro ⟨rfl, rfl⟩
+    simp [hz]
+
+theorem isZero_correct (p : Ext F) (hp : wellFormed p = true) :
+    p.isZero = true ↔ toAff p = some (0, 1) := by
+  have hz : p.z ≠ 0 := ((wellFormed_iff p).1 hp).1
+  obtain ⟨_, e⟩ := ext_repr hp (toAff_of_ne p hz)
+  rw [e, isZero_mk _ hz, toAff_mk _ hz, Option.some.injEq]
+
+theorem eq_mk (P Q : F × F) {z1 z2 : F} (hz1 : z1 ≠ 0) (hz2 : z2 ≠ 0) :
+    (mk P z1).eq (mk Q z2) = true ↔ P = Q := by
+  unfold Ext.eq
+  by_cases hp : (mk P z1).isZero = true
+  · rw [if_pos hp, isZero_mk Q hz2]
+    rw [isZero_mk P hz1] at hp
+    subst hp; exact eq_comm
+  · rw [if_neg hp]
+    by_cases hq : (mk Q z2).isZero = true
+    · rw [if_pos hq]
+      rw [isZero_mk _ hz1] at hp
+      rw [isZero_mk _ hz2] at hq
+      subst hq
+      simpa using hp
+    · rw [if_neg hq]
+      rw [Bool.and_eq_true, decide_eq_true_iff, decide_eq_true_iff]
+      obtain ⟨x1, y1⟩ := P
+      obtain ⟨x2, y2⟩ := Q
+      simp only [mk, Prod.mk.injEq]
+      have hzz : z1 * z2 ≠ 0 := mul_ne_zero hz1 hz2
+      constructor
+      · rintro ⟨h1, h2⟩
+        exact ⟨mul_right_cancel₀ hzz (by linear_combination h1),
+          mul_right_cancel₀ hzz (by linear_combination h2)⟩
+      · rintro ⟨rfl, rfl⟩
+        exact ⟨by ring, by ring⟩
+
+theorem eq_correct (p q : Ext F) (hp : wellFormed p = true) (hq : wellFormed q = true) :
+    p.eq q = true ↔ toAff p = toAff q := by
+  have hz1 : p.z ≠ 0 := ((wellFormed_iff p).1 hp).1
+  have hz2 : q.z ≠ 0 := ((wellFormed_iff q).1 hq).1
+  obtain ⟨_, e1⟩ := ext_repr hp (toAff_of_ne p hz1)
+  obtain ⟨_, e2⟩ := ext_repr hq (toAff_of_ne q hz2)
+  rw [e1, e2, eq_mk _ _ hz1 hz2, toAff_mk _ hz1, toAff_mk _ hz2, Option.some.injEq]
+
+theorem affineEqProj_correct (a : Affine F) (q : Ext F) (hq : wellFormed q = true) :
+    affineEqProj a q = true ↔ some (ofAffine a) = toAff q := by
+  unfold affineEqProj
+  rw [eq_correct _ _ (fromAffine_correct a).1 hq, (fromAffine_correct a).2]
+
+/-! ## 8. normalisation -/
+
+theorem toAffine_eq (p : Ext F) (hz : p.z ≠ 0) : toAffine p = .ok (normalizeWith p p.z⁻¹) := by
+  unfold toAffine normalizeWith
+  by_cases h0 : p.isZero = true
+  · simp [h0]
+  · by_cases h1 : p.z = 1
+    · simp [h0, h1]
+    · simp [h0, h1, inverse?, hz]
+
+theorem toAffine_panic_iff (p : Ext F) : toAffine p = .panic ↔ p.z = 0 := by
+  constructor
+  · intro h
+    by_contra hz
+    rw [toAffine_eq p hz] at h
+    cases h
+  · intro hz
+    have h0 : p.isZero = false := by
+      rw [← Bool.not_eq_true]
+      intro h
+      rw [isZero_iff] at h
+      exact h.2.2.1 (h.2.1.trans hz)
+    simp [toAffine, h0, inverse?, hz]
+
+theorem ofAffine_normalizeWith (p : Ext F) (hz : p.z ≠ 0) :
+    some (ofAffine (normalizeWith p p.z⁻¹)) = toAff p := by
+  rw [toAff_of_ne p hz]
+  unfold normalizeWith
+  by_cases h0 : p.isZero = true
+  · rw [if_pos h0]
+    rw [isZero_iff] at h0
+    obtain ⟨hx, hy, _, _⟩ := h0
+    simp [ofAffine, Affine.zero, hx, hy, hz]
+  · rw [if_neg h0]; rfl
+
+theorem toAffine_correct (p : Ext F) (hz : p.z ≠ 0) :
+    ∃ a, toAffine p = .ok a ∧ some (ofAffine a) = toAff p :=
+  ⟨_, toAffine_eq p hz, ofAffine_normalizeWith p hz⟩
+
+/-- the identity interpretation of the field operations record used by `batchInversion` -/
+def idInterp : (fieldOps (F := F)).Interp F where
+  V := fun _ => True
+  φ := id
+  one_V := trivial
+  one_φ := rfl
+  mul_V := fun _ _ => trivial
+  mul_φ := fun _ _ => rfl
+  square_V := fun _ => trivial
+  square_φ := fun _ => rfl
+  isZero_iff := fun {a} _ => by simp [fieldOps]
+  inv_some := fun {a} _ h => ⟨a⁻¹, by simp only [id] at h; simp [fieldOps, inverse?, h], trivial, rfl⟩
+
+/-- over a field `ark_ff::batch_inversion` inverts every entry (zeros stay zero) and cannot panic -/
+theorem batchInversion_eq (v : List F) : batchInversion v = some (v.map (·⁻¹)) := by
+  obtain ⟨w, hw, hl, _, hi⟩ :=
+    Ops.batchInvMul_correct (idInterp (F := F)) v 1 (fun _ _ => trivial) trivial
+  unfold batchInversion
+  rw [hw]
+  congr 1
+  apply List.ext_getElem (by simp [hl])
+  intro i h1 h2
+  have h3 : i < v.length := by rw [← hl]; exact h1
+  rw [List.getElem_map]
+  obtain ⟨ha, hb⟩ := hi i h3 h1
+  by_cases h0 : v[i] = 0
+  · rw [ha h0, h0, inv_zero]
+  · have := hb h0
+    simpa [idInterp] using this
+
+theorem zipNormalize_map (v : List (Ext F)) (f : Ext F → F) :
+    zipNormalize v (v.map f) = v.map (fun g => normalizeWith g (f g)) := by
+  induction v with
+  | nil => rfl
+  | cons g gs ih => simp only [List.map_cons, zipNormalize, ih]
+
+theorem normalizeBatch_eq (v : List (Ext F)) :
+    normalizeBatch v = .ok (v.map (fun g => normalizeWith g g.z⁻¹)) := by
+  unfold normalizeBatch
+  rw [batchInversion_eq, List.map_map]
+  exact congrArg Outcome.ok (zipNormalize_map v _)
+
+/-! ## 8. sums -/
+
+/-- every partial sum of the left fold `A + Q₁ + Q₂ + …` is defined -/
+def sumDefined (a d : F) : F × F → List (F × F) → Prop
+  | _, [] => True
+  | A, Q :: Qs => affAddDefined d A Q = true ∧ sumDefined a d (affAdd a d A Q) Qs
+
+theorem foldl_addMixed (c : Curve F) (hA : ∀ e, c.mulByA e = c.a * e) :
+    ∀ (l : List (Affine F)) (acc : Ext F) (A : F × F), wellFormed acc = true → toAff acc = some A →
+      sumDefined c.a c.d A (l.map ofAffine) →
+      wellFormed (l.foldl (addMixed c) acc) = true ∧
+      toAff (l.foldl (addMixed c) acc) = some ((l.map ofAffine).foldl (affAdd c.a c.d) A) := by
+  intro l
+  induction l with
+  | nil => intro acc A h1 h2 _; exact ⟨h1, h2⟩
+  | cons q qs ih =>
+    intro acc A h1 h2 hs
+    simp only [List.map_cons, sumDefined] at hs
+    obtain ⟨h3, h4⟩ := addMixed_correct c hA acc q A h1 h2 hs.1
+    simp only [List.foldl_cons, List.map_cons]
+    exact ih _ _ h3 h4 hs.2
+
+theorem foldl_add (c : Curve F) (hA : ∀ e, c.mulByA e = c.a * e) :
+    ∀ (l : List (Ext F)) (la : List (F × F)) (acc : Ext F) (A : F × F),
+      List.Forall₂ (fun p P => wellFormed p = true ∧ toAff p = some P) l la →
+      wellFormed acc = true → toAff acc = some A → sumDefined c.a c.d A la →
+      wellFormed (l.foldl (add c) acc) = true ∧
+      toAff (l.foldl (add c) acc) = some (la.foldl (affAdd c.a c.d) A) := by
+  intro l la acc A hf
+  induction hf generalizing acc A with
+  | nil => intro h1 h2 _; exact ⟨h1, h2⟩
+  | cons hpq _ ih =>
+    intro h1 h2 hs
+    simp only [sumDefined] at hs
+    obtain ⟨h3, h4⟩ := add_correct c hA acc _ A _ h1 hpq.1 h2 hpq.2 hs.1
+    simp only [List.foldl_cons]
+    exact ih _ _ h3 h4 hs.2
+
+theorem zero_onCurve (a d : F) : onCurve a d ((0 : F), (1 : F)) = true := by
+  rw [onCurve_iff]; simp
+
+/-- on a curve where the law is defined everywhere, every fold of curve points is defined -/
+theorem sumDefined_of_complete (a d : F)
+    (hc : ∀ P Q, onCurve a d P = true → onCurve a d Q = true → affAddDefined d P Q = true) :
+    ∀ (l : List (F × F)) (A : F × F), onCurve a d A = true → (∀ Q ∈ l, onCurve a d Q = true) →
+      sumDefined a d A l := by
+  intro l
+  induction l with
+  | nil => intro _ _ _; trivial
+  | cons Q Qs ih =>
+    intro A hA hl
+    have hQ := hl Q (by simp)
+    have hd := hc A Q hA hQ
+    exact ⟨hd, ih _ (affAdd_onCurve a d A Q hA hQ hd) (fun R hR => hl R (by simp [hR]))⟩
+
+/-! ## 9. `is_on_curve` -/
+
+theorem isOnCurve_eq (c : Curve F) (hA : ∀ e, c.mulByA e = c.a * e) (q : Affine F) :
+    q.isOnCurve c = onCurve c.a c.d (ofAffine q) := by
+  rw [Bool.eq_iff_iff, onCurve_iff]
+  unfold Affine.isOnCurve
+  simp only [decide_eq_true_eq]
+  simp only [sq, hA, ofAffine]
+  constructor <;> intro h <;> linear_combination h
+
+/-! ## sanity of the specification: neutral element and inverses of the Edwards law -/
+
+theorem affAddDefined_zero_right (d : F) (P : F × F) : affAddDefined d P ((0 : F), (1 : F)) = true := by
+  rw [affAddDefined_iff]; simp
+
+theorem affAdd_zero_right (a d : F) (P : F × F) : affAdd a d P ((0 : F), (1 : F)) = P := by
+  obtain ⟨x, y⟩ := P
+  simp [affAdd]
+
+theorem affAdd_zero_left (a d : F) (P : F × F) : affAdd a d ((0 : F), (1 : F)) P = P := by
+  obtain ⟨x, y⟩ := P
+  simp [affAdd]
+
+theorem affAdd_affNeg (a d : F) (P : F × F) (hP : onCurve a d P = true)
+    (hd : affAddDefined d P (affNeg P) = true) : affAdd a d P (affNeg P) = ((0 : F), (1 : F)) := by
+  obtain ⟨x, y⟩ := P
+  rw [onCurve_iff] at hP
+  obtain ⟨h1, h2⟩ := (affAddDefined_iff _ _ _).1 hd
+  simp only [affNeg] at h1 h2 hP
+  simp only [affAdd, affNeg, Prod.mk.injEq]
+  constructor
+  · have : x * y + y * -x = 0 := by ring
+    rw [this, zero_mul]
+  · have : y * y - a * x * -x = 1 - d * x * -x * y * y := by linear_combination hP
+    rw [this, mul_inv_cancel₀ h2]
+
+theorem affNeg_onCurve (a d : F) (P : F × F) : onCurve a d (affNeg P) = onCurve a d P := by
+  rw [Bool.eq_iff_iff, onCurve_iff, onCurve_iff]
+  simp only [affNeg]
+  constructor <;> intro h <;> linear_combination h
+
 end Ark.Curve.TE
